@@ -54,7 +54,7 @@ pub fn run(ctx: &mut Ctx, index: u64) -> Verdict {
     cmd.args(["-f", &period.to_string(), "remote", "--netconf-host", "127.0.0.1", "--netconf-port", "1"]);
     cmd.args(["--ca-cert-path", &format!("{PKI}/ca.crt"), "--client-cert-path", &format!("{PKI}/client.crt"), "--client-key-path", &format!("{PKI}/client.key")]);
     cmd.stdin(Stdio::null()).stdout(Stdio::null()).stderr(Stdio::piped());
-    let mut child = match cmd.spawn() {
+    let mut child = match crate::core::spawn_retry(&mut cmd) {
         Ok(c) => c,
         Err(e) => return Verdict::violation("harness-error", format!("spawn {:?}: {e}", agentbin_path())),
     };
